@@ -50,7 +50,7 @@ CLAIMED.update({
 CLAIMED.update({
  'C14': dict(cat='proof', technique='CBMC code contracts with a loop invariant for the chain + SMT verification conditions for the Amanatides-Woo one-step geometric invariant',
    text='Chain length = L1 distance + 1, first entry = origin cell, each step moves one face-adjacent cell along the axis of the smallest crossing parameter (ties: second axis), traversal state after cast(end) is a function of grid, origin and end only (history independence); geometric invariant established by setEndPoint and preserved by next(): the ray stays in the closed current cell until the crossing parameter and the crossing point lies in the next cell, so every listed cell is crossed by the segment; next() keeps the cell between origin and end cells and reduces the L1 distance to the end cell by exactly one per step (hence L1 steps end in the end cell, inside the grid).',
-   note=TB_A + '; ' + TB_B + '; RayCasting<double,2> only; the clause "ends in the end cell after L1 steps without leaving the grid": base and step of the induction on the L1 distance machine-checked (end point off the cell border), the induction itself applied by hand', ref='DESIGN.md 4 (C14)'),
+   note=TB_A + '; ' + TB_B + '; back end A: RayCasting<double,2>, back end B: all four instantiations; the clause "ends in the end cell after L1 steps without leaving the grid": base and step of the induction on the L1 distance machine-checked (end point off the cell border), the induction itself applied by hand', ref='DESIGN.md 4 (C14)'),
 })
 CLAIMED.update({
  'C19': dict(cat='proof', technique='lock-discipline contracts on the real methods (ghost held-flag for std::lock_guard, ownership map mutex -> fields) proved per method by CBMC dfcc; data-race freedom for all schedules then follows from the lockset theorem (stated, not machine-checked)',
